@@ -2,14 +2,43 @@
   C03 — NGAP messages are encoded exactly as X.691 aligned PER / TS 38.413 prescribe.
   Model: Stgutg.Model.AperEnc (marshal.go) over the regenerated schema; specification: Stgutg.Spec.X691
   (written from the Recommendation) under the constraints of Stgutg.Spec.Ts38413Leaf (written from TS 38.413).
+  Helper lemmas: Stgutg/Proofs/AperSpec.lean (primitives), Stgutg/Proofs/AperSpecComp.lean (composite types).
+
+  What is proved here (and what is not):
+  * `encode_eq_spec` / `C03_encode_canonical`: whatever bits the encoder model produces are the bits the X.691
+    specification prescribes (in particular the specification encodes the value); `encode_refuses` / `C03_refuses`:
+    a value the specification does not encode (integer out of range, illegal size, unset CHOICE, open type not matching
+    its identifier …) is not put on the wire. Both for EVERY schema passing the decidable `specOK` (decided for the
+    regenerated NGAP schema by the kernel), every type / parameter string passing `tyParamsOK`, every `regular` value.
+  * NOT proved: completeness (the model never refuses a value the specification encodes); it is exercised by the
+    differential run only. Stated as `EncodeCompleteStatement`.
+  * Hypotheses the proofs forced (each one is a place where marshal.go and X.691 disagree outside it):
+    schema side (`specOK`, all hold of the NGAP schema — `ngap_schema_specOK`):
+      - INTEGER: both bounds or none (the library's semi-constrained form is not X.691's); a range above 64K starts at 0
+        (the octet count is taken from the value, not from value − lb) and ends below 2^63;
+      - ENUMERATED: lower bound 0 (the library encodes the value, X.691 the index);
+      - strings: 0 ≤ lb ≤ ub; SIZE(lb..MAX) only with lb = 0 (the library writes length − lb there);
+      - SEQUENCE OF: a lower bound whenever there is an upper bound, lb < 64K, ub ≥ 64K only without extension marker;
+      - CHOICE: `valueUB` = #alternatives − 1 with at least two alternatives (one alternative: the library writes a bit,
+        X.691 nothing) — or no `valueUB`, then the library refuses everything (PrivateIEID, finding F21);
+      - open type: every alternative has a non-empty encoding (empty: X.691 wants one zero octet, the library writes none).
+    value side (`regular`; excludes no value a Go program can build from well-formed ngapType structs except as stated):
+      - INTEGER values are int64 (always true in Go);
+      - a BitString's `Bytes` has exactly ⌈BitLength/8⌉ octets (longer slices are legal Go values: the library ignores the
+        excess, the specification here is stated on the regular representation);
+      - a CHOICE struct has only the selected alternative non-nil (a second non-nil pointer is ignored by the library);
+      - unfragmented: every string shorter than 16384 units and every open-type content shorter than 16384 octets
+        (the property separates fragmentation; it cannot be stated on the size of the output: a 65536-octet string
+        is encoded as a length-0 string by the loop).
 -/
 import Stgutg.Model.AperEnc
 import Stgutg.Spec.X691
 import Stgutg.Spec.Ts38413Leaf
 import Stgutg.Gen.NgapSchema
+import Stgutg.Proofs.AperSpecComp
 
 namespace Stgutg.Props.C03
-open Stgutg Stgutg.Aper
+open Stgutg Stgutg.Aper Stgutg.Proofs.AperSpec
 
 set_option maxRecDepth 1000000 in
 /-- Table fact, re-decided on every run: each of the simple types and list types tabled by hand from TS 38.413
@@ -23,5 +52,169 @@ theorem tags_are_ts38413 :
 /-- the table names are pairwise distinct -/
 theorem table_names_distinct :
     (Spec.Ts38413.leafTable.map (·.1)).Nodup ∧ (Spec.Ts38413.listTable.map (·.1)).Nodup := by decide +kernel
+
+/-! ### (a) the primitives, for all inputs in the stated domain (no schema involved) -/
+
+/-- 11.5 constrained whole number, range 2..65536, offset inside the range: the model and the specification
+    both encode, and produce the same bits. (Range 1: callers write nothing; the model function itself would write a bit.) -/
+theorem constrained_eq (pos : Nat) (range : Int) (v : Nat) (b : Bits) (h2 : 2 ≤ range) (h64 : range ≤ 65536)
+    (hv : (v : Int) < range) :
+    appendConstraintValue pos range v = .ok b ↔ Spec.X691.constrainedWholeNumber pos v range.toNat = some b := by
+  obtain ⟨b', h1, h2'⟩ := Proofs.AperSpec.constrained_eq pos range v h2 h64 hv
+  rw [h1, h2']
+  simp
+
+example : appendConstraintValue 3 300 299 = .ok (List.replicate 5 false ++ natToBits 16 299) ∧
+    Spec.X691.constrainedWholeNumber 3 299 300 = some (List.replicate 5 false ++ natToBits 16 299) := by decide +kernel
+
+/-- 11.9 general length determinant below the fragmentation threshold (the form used without a usable upper bound) -/
+theorem length_eq (pos : Nat) (sr : Int) (n lb : Nat) (ub : Option Nat) (b : Bits) (hn : n < 16384)
+    (hsr : sr ≤ 0 ∨ 65536 < sr) (hub : ∀ u, ub = some u → 65536 ≤ u) :
+    appendLength pos sr n = .ok b ↔ Spec.X691.lengthDeterminant pos n lb ub = some b := by
+  rw [length_unc pos sr n hn hsr, lengthDeterminant_unc pos n lb ub hn hub]
+  simp
+
+/-- 11.9.3.3 constrained length: `n − lb` in `ub − lb + 1` values -/
+theorem length_constrained_eq (pos n lb u : Nat) (b : Bits) (hl : lb ≤ n) (hu : n ≤ u) (hlu : lb < u) (hu64 : u < 65536)
+    (h : appendLength pos ((u : Int) - lb + 1) (n - lb) = .ok b) :
+    Spec.X691.lengthDeterminant pos n lb (some u) = some b :=
+  length_fwd_con pos n lb u b hl hu hlu hu64 h
+
+/-- 13 INTEGER (int64 values; both bounds or none; a range above 64K starts at 0 and ends below 2^63) -/
+theorem integer_eq (pos : Nat) (v : Int) (ext : Bool) (lbP ubP : Option Int) (b : Bits)
+    (hok : intOK' lbP ubP = true) (h1 : -(2 ^ 63) ≤ v) (h2 : v < 2 ^ 63)
+    (h : appendInteger pos v ext lbP ubP = .ok b) : Spec.X691.integer pos v ext lbP ubP = some b :=
+  integer_fwd pos v ext lbP ubP b hok h1 h2 h
+
+example : intOK' (some 0) (some 4294967295) = true ∧
+    appendInteger 1 70000 false (some 0) (some 4294967295) = .ok (natToBits 2 2 ++ List.replicate 5 false ++ natToBits 24 70000) := by
+  decide +kernel
+
+/-- 14 ENUMERATED (root enumerations numbered from 0) -/
+theorem enumerated_eq (pos n : Nat) (ext : Bool) (lbP ubP : Option Int) (b : Bits) (hok : enumOK' lbP = true)
+    (h : appendEnumerated pos n ext lbP ubP = .ok b) : Spec.X691.enumerated pos n ext lbP ubP = some b :=
+  enumerated_fwd pos n ext lbP ubP b hok h
+
+/-- 16 BIT STRING, fewer than 16384 bits -/
+theorem bit_string_eq (pos : Nat) (bytes : Bytes) (len : Nat) (ext : Bool) (lbP ubP : Option Int) (b : Bits)
+    (hok : strOK' lbP ubP = true) (hlen : len < 16384)
+    (h : appendBitString pos bytes len ext lbP ubP = .ok b) :
+    Spec.X691.bitString pos ((bytesToBits bytes).take len) ext lbP ubP = some b :=
+  bit_string_fwd pos bytes len ext lbP ubP b hok hlen h
+
+/-- 17 OCTET STRING, fewer than 16384 octets -/
+theorem octet_string_eq (pos : Nat) (bytes : Bytes) (ext : Bool) (lbP ubP : Option Int) (b : Bits)
+    (hok : strOK' lbP ubP = true) (hlen : bytes.length < 16384)
+    (h : appendOctetString pos bytes ext lbP ubP = .ok b) : Spec.X691.octetString pos bytes ext lbP ubP = some b :=
+  octet_string_fwd pos bytes ext lbP ubP b hok hlen h
+
+example : strOK' (some 1) (some 150) = true ∧
+    appendOctetString 0 [0x41, 0x4d, 0x46] true (some 1) (some 150) =
+      .ok ([false] ++ natToBits 8 2 ++ List.replicate 7 false ++ bytesToBits [0x41, 0x4d, 0x46]) := by decide +kernel
+
+/-- 23.6 index of the chosen alternative among `nAlt ≥ 2` root alternatives -/
+theorem choice_index_eq (pos p nAlt : Nat) (ext : Bool) (ub : Int) (b : Bits)
+    (hub : ub + 1 = (nAlt : Int)) (h2 : 2 ≤ nAlt) (hp1 : 1 ≤ p) (hp : p ≤ nAlt)
+    (h : appendChoiceIndex pos p ext (some ub) = .ok b) : Spec.X691.constrainedWholeNumber pos (p - 1) nAlt = some b :=
+  choice_index_fwd pos p nAlt ext ub b hub h2 hp1 hp h
+
+/-! ### (b) composite types, for every schema that passes `specOK` -/
+
+/-- **the encoder model writes what X.691 prescribes** -/
+theorem encode_eq_spec (env : Env) (hwf : specOK env = true) (fuel pos : Nat) (ty : Ty) (params : Params) (v : Val)
+    (bits : Bits) (hp : tyParamsOK env ty params = true) (hr : regular env fuel ty params.openType v = true)
+    (h : encField env fuel pos ty params v = .ok bits) : Spec.X691.encode env fuel pos ty params v = some bits :=
+  Proofs.AperSpec.encode_eq_spec env hwf fuel pos ty params v bits hp hr h
+
+/-- **what X.691 does not encode is not put on the wire** -/
+theorem encode_refuses (env : Env) (hwf : specOK env = true) (fuel pos : Nat) (ty : Ty) (params : Params) (v : Val)
+    (hp : tyParamsOK env ty params = true) (hr : regular env fuel ty params.openType v = true)
+    (hs : Spec.X691.encode env fuel pos ty params v = none) : ∀ bits, encField env fuel pos ty params v ≠ .ok bits :=
+  Proofs.AperSpec.encode_refuses env hwf fuel pos ty params v hp hr hs
+
+/-- full strength would add completeness: the model encodes every value the specification encodes (NOT proved;
+    needs in addition that an open type's reference field precedes it, which the model's lookup requires) -/
+def EncodeCompleteStatement : Prop :=
+  ∀ (env : Env), specOK env = true → ∀ (fuel pos : Nat) (ty : Ty) (params : Params) (v : Val) (bits : Bits),
+    tyParamsOK env ty params = true → regular env fuel ty params.openType v = true →
+    Spec.X691.encode env fuel pos ty params v = some bits → encField env fuel pos ty params v = .ok bits
+
+/-! ### (c) the NGAP schema -/
+
+set_option maxRecDepth 1000000 in
+/-- Table fact, re-decided on every run over the regenerated schema (1 431 struct types): every field of every type
+    is declared with parameters inside the domain of `encode_eq_spec` -/
+theorem ngap_schema_specOK : specOK Gen.Ngap.schema = true := by decide +kernel
+
+set_option maxRecDepth 1000000 in
+/-- the parameter string `ngap.Encoder` passes for `NGAPPDU` -/
+theorem pdu_params_ok : tyParamsOK Gen.Ngap.schema (.struct Gen.Ngap.pduId) Gen.Ngap.encoderParams = true := by
+  decide +kernel
+
+/-- **C03 (canonical)**: the octets `ngap.Encoder` (model) returns for a PDU are the complete X.691 ALIGNED PER
+    encoding of that PDU under the schema's constraints -/
+theorem C03_encode_canonical (fuel : Nat) (v : Val) (bs : Bytes)
+    (hr : regular Gen.Ngap.schema fuel (.struct Gen.Ngap.pduId) false v = true)
+    (h : marshal Gen.Ngap.schema fuel (.struct Gen.Ngap.pduId) Gen.Ngap.encoderParams v = .ok bs) :
+    Spec.X691.encodePdu Gen.Ngap.schema fuel (.struct Gen.Ngap.pduId) Gen.Ngap.encoderParams v = some bs :=
+  marshal_eq_spec Gen.Ngap.schema ngap_schema_specOK fuel _ _ v bs pdu_params_ok hr h
+
+/-- **C03 (refusal)**: a PDU the specification does not encode — an integer outside its range, a string or list of
+    illegal size, an unset CHOICE, an open type that does not match its identifier — is not put on the wire -/
+theorem C03_refuses (fuel : Nat) (v : Val)
+    (hr : regular Gen.Ngap.schema fuel (.struct Gen.Ngap.pduId) false v = true)
+    (hs : Spec.X691.encodePdu Gen.Ngap.schema fuel (.struct Gen.Ngap.pduId) Gen.Ngap.encoderParams v = none) :
+    ∀ bs, marshal Gen.Ngap.schema fuel (.struct Gen.Ngap.pduId) Gen.Ngap.encoderParams v ≠ .ok bs :=
+  marshal_refuses Gen.Ngap.schema ngap_schema_specOK fuel _ _ v pdu_params_ok hr hs
+
+/-- the same pair for every struct type of the schema marshalled on its own (the PDU-session / handover transfer
+    containers are marshalled with the parameter string "valueExt") -/
+theorem C03_container_canonical (fuel id : Nat) (params : Params) (v : Val) (bs : Bytes)
+    (hp : tyParamsOK Gen.Ngap.schema (.struct id) params = true)
+    (hr : regular Gen.Ngap.schema fuel (.struct id) params.openType v = true)
+    (h : marshal Gen.Ngap.schema fuel (.struct id) params v = .ok bs) :
+    Spec.X691.encodePdu Gen.Ngap.schema fuel (.struct id) params v = some bs :=
+  marshal_eq_spec Gen.Ngap.schema ngap_schema_specOK fuel _ _ v bs hp hr h
+
+theorem C03_container_refuses (fuel id : Nat) (params : Params) (v : Val)
+    (hp : tyParamsOK Gen.Ngap.schema (.struct id) params = true)
+    (hr : regular Gen.Ngap.schema fuel (.struct id) params.openType v = true)
+    (hs : Spec.X691.encodePdu Gen.Ngap.schema fuel (.struct id) params v = none) :
+    ∀ bs, marshal Gen.Ngap.schema fuel (.struct id) params v ≠ .ok bs :=
+  marshal_refuses Gen.Ngap.schema ngap_schema_specOK fuel _ _ v hp hr hs
+
+/-- the parameter string "valueExt" is inside the domain for every SEQUENCE type (checked here for all struct types
+    that are not CHOICEs: `structOK` has nothing to ask of them) -/
+theorem valueExt_params_ok (id : Nat) : tyParamsOK Gen.Ngap.schema (.struct id) { valueExt := true } = true := by
+  simp [tyParamsOK, structOK]
+
+/-! ### non-vacuity -/
+
+/-- the alternatives of a CHOICE value: `n` pointers, all nil but number `k` (1-based) -/
+def alts (n k : Nat) (v : Val) : List Val := (List.range n).map fun i => if i + 1 = k then .ptr v else .nil
+
+/-- an NG SETUP RESPONSE with AMFName "AMF" and a RelativeAMFCapacity -/
+def ngSetupResponse (capacity : Int) : Val :=
+  let ie1 := Val.struct [.struct [.int 1], .struct [.enum 0],
+    .struct (.int 1 :: alts 5 1 (.struct [.str [0x41, 0x4d, 0x46]]))]
+  let ie2 := Val.struct [.struct [.int 86], .struct [.enum 1],
+    .struct (.int 3 :: alts 5 3 (.struct [.int capacity]))]
+  let msg := Val.struct [.struct [.slice [ie1, ie2]]]
+  let so := Val.struct [.struct [.int 21], .struct [.enum 0], .struct (.int 7 :: alts 18 7 msg)]
+  .struct (.int 2 :: alts 3 2 so)
+
+set_option maxRecDepth 1000000 in
+/-- the hypotheses of `C03_encode_canonical` are satisfiable: a regular value the model encodes (21 octets) -/
+example : regular Gen.Ngap.schema 40 (.struct Gen.Ngap.pduId) false (ngSetupResponse 255) = true ∧
+    marshal Gen.Ngap.schema 40 (.struct Gen.Ngap.pduId) Gen.Ngap.encoderParams (ngSetupResponse 255) =
+      .ok [0x20, 0x15, 0x00, 0x11, 0x00, 0x00, 0x02, 0x00, 0x01, 0x00, 0x05, 0x01, 0x00, 0x41, 0x4d, 0x46,
+           0x00, 0x56, 0x40, 0x01, 0xff] := by decide +kernel
+
+set_option maxRecDepth 1000000 in
+/-- the hypotheses of `C03_refuses` are satisfiable: RelativeAMFCapacity 256 is outside 0..255, the value is regular
+    and the specification does not encode it -/
+example : regular Gen.Ngap.schema 40 (.struct Gen.Ngap.pduId) false (ngSetupResponse 256) = true ∧
+    Spec.X691.encodePdu Gen.Ngap.schema 40 (.struct Gen.Ngap.pduId) Gen.Ngap.encoderParams (ngSetupResponse 256) = none := by
+  decide +kernel
 
 end Stgutg.Props.C03
